@@ -276,14 +276,14 @@ impl SaveDirState {
 
                 let dir = std::path::absolute(dir)?;
                 out.write_all(b"-L")?;
-                write_copied_file_arg(out, &dir)?;
+                write_copied_file_arg(out, &dir, is_rsp_file)?;
             } else {
                 // If the arg contains '=', then check to see if what's after the '=' is a filename
                 // that exists. If it does, use that.
                 let maybe_path = if let Some(eq_index) = arg.find('=') {
                     let after_equals = &arg[eq_index + 1..];
                     if Path::new(after_equals).exists() {
-                        out.write_all(&arg.as_bytes()[..=eq_index])?;
+                        write_arg_text(out, &arg.as_bytes()[..=eq_index], is_rsp_file)?;
                         after_equals
                     } else {
                         arg.as_str()
@@ -294,18 +294,9 @@ impl SaveDirState {
 
                 let path = std::path::absolute(maybe_path)?;
                 if self.output_path(&path).exists() {
-                    write_copied_file_arg(out, &path)?;
-                } else if is_rsp_file {
-                    // At-file content is consumed directly by the linker, not by a shell, so no
-                    // shell escaping is needed.
-                    out.write_all(maybe_path.as_bytes())?;
+                    write_copied_file_arg(out, &path, is_rsp_file)?;
                 } else {
-                    for b in maybe_path.bytes() {
-                        if b" $\\".contains(&b) {
-                            out.write_all(b"\\")?;
-                        }
-                        out.write_all(&[b])?;
-                    }
+                    write_arg_text(out, maybe_path.as_bytes(), is_rsp_file)?;
                 }
             }
         }
@@ -588,9 +579,33 @@ fn write_arg_separator(out: &mut dyn Write, is_at_file: bool) -> Result {
     Ok(())
 }
 
-fn write_copied_file_arg(out: &mut dyn Write, path: &Path) -> Result {
+fn write_copied_file_arg(out: &mut dyn Write, path: &Path, is_at_file: bool) -> Result {
     out.write_all(b"$D/")?;
-    out.write_all(to_output_relative_path(path).as_os_str().as_encoded_bytes())?;
+    write_arg_text(
+        out,
+        to_output_relative_path(path).as_os_str().as_encoded_bytes(),
+        is_at_file,
+    )
+}
+
+/// Writes part of an argument. At-file content is consumed directly by the linker, not by a shell,
+/// so it's written as-is. Otherwise, we escape it so that the shell reads it back unchanged.
+fn write_arg_text(out: &mut dyn Write, text: &[u8], is_at_file: bool) -> Result {
+    if is_at_file {
+        out.write_all(text)?;
+        return Ok(());
+    }
+    for &b in text {
+        if b == b'\n' {
+            // A backslash followed by a newline is a line continuation, so quote it instead.
+            out.write_all(b"'\n'")?;
+        } else {
+            if !(b.is_ascii_alphanumeric() || b"_@%+=:,./-".contains(&b) || !b.is_ascii()) {
+                out.write_all(b"\\")?;
+            }
+            out.write_all(&[b])?;
+        }
+    }
     Ok(())
 }
 
